@@ -196,6 +196,22 @@ pub fn check_case(ctx: &mut Ctx, c: &Case) {
 pub fn run(ctx: &mut Ctx) {
     let quick = ctx.tier == Tier::Quick;
     let mut idx = 0u64;
+    // ---- before anything else: many connections abandoned in the middle of a large frame (about
+    //      24 MB of bytes that were pushed and never pulled, on this thread and on another one).
+    //      Every case below runs after them: a buffer is its own bytes and nothing else ----
+    if !cfg!(miri) {
+        let abandon = |salt: u8| {
+            for k in 0..200usize {
+                let mut tb = TcpBuffer::new();
+                tb.push_data(&[0xff, 0xff]);
+                tb.push_data(&vec![salt ^ k as u8; 60_000]);
+                let _ = tb.pull_data();
+            }
+        };
+        abandon(0x11);
+        let _ = std::thread::spawn(move || abandon(0x22)).join();
+        ctx.count_n("connections-abandoned-mid-frame", 400);
+    }
     // ---- every composition of short streams into chunks, x pull patterns ----
     // streams: all frame-size sequences whose encoded length is <= maxlen
     let maxlen = if quick { 12 } else { 14 };
